@@ -454,6 +454,10 @@ func c01Run1(c *fw.Ctx) {
 	if c.Thorough() {
 		depth = 4
 	}
+	if c.Shard == 0 {
+		c.Extra("depth_bound_completed", int64(depth))
+		c.Extra("alphabet_size", int64(len(alpha)))
+	}
 	sampled := 0
 	exploreTree(c, len(alpha), depth, func(h []int) bool {
 		if len(h) < depth {
